@@ -55,7 +55,7 @@ class UriConnection(Connection):
     def __init__(self, uri, ssl_options=None, client_properties=None,
                  lazy=False):
         uri = compatibility.patch_uri(uri)
-        parsed_uri = urlparse.urlparse(uri)
+        parsed_uri = urlparse.urlsplit(uri)
         use_ssl = parsed_uri.scheme == 'amqps' or parsed_uri.scheme == 'https'
         hostname = parsed_uri.hostname or 'localhost'
         port = parsed_uri.port or (5671 if use_ssl else 5672)
